@@ -33,6 +33,17 @@ def explore(ctx, depth):
     rng = ctx.rng
     ivs = list(TR.IntervalsByName.items())
     core = docrun.make_cases(ctx, 12 if depth == 'quick' else 80, plain_notes=True, max_measures=3)
+    # notes written without a duration (a bare pitch: the pitch is the FIRST part of the note) and staves under the percussion clef `*clefP`
+    # (a legal clef sign): transposed like every other note (round 6: `if pitch_index:` and "unpitched staves are skipped")
+    xdocs = [gen.DocGen(rng, profile='core', plain_notes=True, max_measures=3).make() for _ in range(5 if depth == 'quick' else 40)]
+    for xd in xdocs:
+        for c in gen.all_cells(xd):
+            if c.get('k') == 'note' and rng.random() < 0.35:
+                c['dur'] = None
+                c['pre'] = []
+            elif c.get('k') == 'other' and c.get('kind') == 'clef' and rng.random() < 0.4:
+                c['text'] = rng.choice(['*clefP', '*clefP2'])
+    core += docrun.make_cases(ctx, 0, docs=xdocs)
     frontier = docrun.make_cases(ctx, 10 if depth == 'quick' else 60, max_measures=3)
     for stream, cases in (('core', core), ('frontier', frontier)):
         for case in cases:
